@@ -29,6 +29,8 @@ inductive Guard where
   | workers (wg : Nat) (slackW : Nat)
   /-- written only by the spawning goroutine (outside `go` bodies); workers only read -/
   | ownerWrites
+  /-- written only by the spawning goroutine and only BEFORE its first spawn (source order); read by anyone -/
+  | frozen
   deriving Repr, DecidableEq
 
 structure Chk where
@@ -57,6 +59,7 @@ def access (pol : List (Nat × Guard)) (c : Chk) (x : Nat) (w : Bool) : Chk :=
       if !c.ctx.isEmpty then { c with bad := c.bad ++ [(x, w)] }
       else if !c.spawned || c.waited.contains wg then c else { c with bad := c.bad ++ [(x, w)] }
   | some .ownerWrites => if w && !c.ctx.isEmpty then { c with bad := c.bad ++ [(x, w)] } else c
+  | some .frozen => if w && (!c.ctx.isEmpty || c.spawned) then { c with bad := c.bad ++ [(x, w)] } else c
 
 def chkStep (pol : List (Nat × Guard)) (c : Chk) : Ev → Chk
   | .lock m => { c with held := (m, true) :: c.held }
@@ -119,54 +122,71 @@ def precedesAll (a : Ev) (p : Ev → Bool) (l : List Ev) : Bool :=
   | none, _ => false
 
 open GocoinV.Gen.ConcFacts in
-/-- the policy table: function ↦ (shared variable ↦ guard). Slack entries are justified by:
-    * save/db.HashMap (3 reads outside the RLocks: two `range db.HashMap` over the fixed array and
+/-- the policy table: function ↦ (shared variable ↦ guard). Names are the CANONICAL names of go/cmd/gen_c11: a field path
+    is rooted at the type of the variable it starts from (`UnspentDB.HashMap` whatever the receiver is called), a plain
+    local is named by its type (`L:uint32` = the captured, mutated `uint32` local of that function, `L:sync.WaitGroup` = its
+    wait group), unexported functions by their role. Locals that a function literal captures and that are written after
+    their declaration are recorded automatically and MUST have an entry here (`capturedCovered`).
+    Slack entries are justified by:
+    * save/UnspentDB.HashMap (3 reads outside the RLocks: two `range db.HashMap` over the fixed array and
       `len(db.HashMap[i])`) and the header reads — `snapshot_atomic` (no mutation can start while the saver is
       between begin and finito); defragMap: `len(db.HashMap)` of the fixed array;
-    * writeOne rec.ipos (1 read after unlock) — only writeOne writes ipos and there is one writer at a time;
-      rec.trusted (1 read under disk_access only) — BlockAdd sets it on the same thread that flushes;
-    * BlockGetInternal rec.* reads after unlock — `pub_read_after_publish` (model (d));
-      rec.olen (1 read, 1 write outside any lock) — benign same-value cache, see the evidence explanation;
-    * BuildTxListExt bl.Txs: only the parsing goroutine writes it (workers read `bl.Txs[0]`); the checker walks
+    * writeOne oneBl.ipos (1 read after unlock) — only writeOne writes ipos and there is one writer at a time;
+      oneBl.trusted (1 read under disk_access only) — BlockAdd sets it on the same thread that flushes;
+    * BlockGetInternal oneBl.* reads after unlock — `pub_read_after_publish` (model (d));
+      oneBl.olen (1 read, 1 write outside any lock) — benign same-value cache, see the evidence explanation;
+    * BuildTxListExt Block.Txs: only the parsing goroutine writes it (workers read their own pack); the checker walks
       loop bodies once in source order, so stores after a spawn of an earlier iteration are not ordered by it —
-      those are left to the race detector runs of the harness. -/
+      those are left to the race detector runs of the harness; the captured `*btc.Tx` (the coinbase) is stored before
+      the first spawn only; Block.BlockWeight / Block.TotalInputs are touched by the parsing goroutine only (the workers
+      add to the captured `uint64` atomically) — also when the accumulation is moved into a helper, which is followed. -/
 def policy : List (String × List (Nat × Guard)) := [
-  ("commitTxs", [(N_blUnsp, .mainOnly), (N_t, .mainOnly), (N_ver_err_cnt, .workers N_wg 0),
-                 (N_tx_Spent_outputs, .ownerWrites), (N_tx_TxOut, .ownerWrites), (N_wait4compl, .mainOnly),
-                 (N_changes_DeledTxs, .mainOnly), (N_changes_UndoData, .mainOnly), (N_changes_AddList, .mainOnly)]),
-  ("save", [(N_db_HashMap, .mutex N_db_MapMutex_idx 3 0), (N_db_LastBlockHeight, .ownerWrites), (N_db_LastBlockHash, .ownerWrites)]),
-  ("commitBlockTxs", [(N_db_LastBlockHeight, .mutex N_db_Mutex 0 0), (N_db_LastBlockHash, .mutex N_db_Mutex 0 0)]),
-  ("undoBlockTxs", [(N_db_HashMap, .mutex N_db_MapMutex_idx 0 0), (N_db_DeletedRecords, .mutex N_db_MapMutex_idx 0 0),
-                    (N_db_LastBlockHeight, .mutex N_db_Mutex 0 0), (N_db_LastBlockHash, .mutex N_db_Mutex 0 0)]),
-  ("commit", [(N_db_HashMap, .mutex N_db_MapMutex_idx 0 0)]),
-  ("del", [(N_db_HashMap, .mutex N_db_MapMutex_idx 0 0), (N_db_DeletedRecords, .mutex N_db_MapMutex_idx 0 0)]),
-  ("idle", [(N_db_LastBlockHeight, .mutex N_db_Mutex 0 0)]),
-  ("unspentGet", [(N_db_HashMap, .mutex N_db_MapMutex_idx 0 0)]),
-  ("relocate", [(N_db_HashMap, .mutex N_db_MapMutex_idx 0 0)]),
-  ("defragMap", [(N_db_HashMap, .mutex N_db_MapMutex_idx 1 0), (N_db_DeletedRecords, .mutex N_db_MapMutex_idx 0 0)]),
-  ("writeOne", [(N_rec_ipos, .mutex N_db_mutex 1 0), (N_rec_blen, .mutex N_db_mutex 0 0), (N_rec_fpos, .mutex N_db_mutex 0 0),
-                (N_rec_datfileidx, .mutex N_db_mutex 0 0), (N_rec_compressed, .mutex N_db_mutex 0 0), (N_rec_snappied, .mutex N_db_mutex 0 0),
-                (N_rec_trusted, .mutex N_db_mutex 1 0), (N_db_blockIndex, .mutex N_db_mutex 0 0), (N_db_datToWrite, .mutex N_db_mutex 0 0),
-                (N_db_maxidxfilepos, .mutex N_db_disk_access 0 0), (N_db_maxdatfilepos, .mutex N_db_disk_access 0 0),
-                (N_db_maxdatfileidx, .mutex N_db_disk_access 0 0), (N_db_blockdata, .mutex N_db_disk_access 0 0)]),
-  ("blockGetInternal", [(N_db_blockIndex, .mutex N_db_mutex 0 0), (N_db_cache, .mutex N_db_mutex 0 0), (N_rec_trusted, .mutex N_db_mutex 0 0),
-                (N_rec_ipos, .mutex N_db_mutex 1 0), (N_rec_blen, .mutex N_db_mutex 2 0), (N_rec_fpos, .mutex N_db_mutex 1 0),
-                (N_rec_datfileidx, .mutex N_db_mutex 2 0), (N_rec_compressed, .mutex N_db_mutex 1 0), (N_rec_snappied, .mutex N_db_mutex 1 0),
-                (N_rec_olen, .mutex N_db_mutex 1 1)]),
-  ("blockAdd", [(N_rec_ipos, .mutex N_db_mutex 0 0), (N_rec_trusted, .mutex N_db_mutex 0 0), (N_db_blockIndex, .mutex N_db_mutex 0 0),
-                (N_db_datToWrite, .mutex N_db_mutex 0 0)]),
-  ("blockInvalid", [(N_cur_ipos, .mutex N_db_mutex 0 0), (N_cur_trusted, .mutex N_db_mutex 0 0), (N_db_blockIndex, .mutex N_db_mutex 0 0),
-                (N_db_cache, .mutex N_db_mutex 0 0)]),
-  ("buildTxListExt", [(N_block_weight, .workers N_wg 0), (N_bl_Txs, .ownerWrites)]),
-  ("witnessSigHash", [(N_tx_hashPrevouts, .mutex N_tx_hashLock 0 0), (N_tx_hashSequence, .mutex N_tx_hashLock 0 0), (N_tx_hashOutputs, .mutex N_tx_hashLock 0 0)]),
-  ("taprootSigHash", [(N_tx_tapSingleHashes, .mutex N_tx_hashLock 0 0), (N_tx_tapOutSingleHash, .mutex N_tx_hashLock 0 0)]),
+  ("commitTxs", [(N_L_uint32, .workers N_L_sync_WaitGroup 0),
+                 (N_Tx_Spent_outputs, .ownerWrites), (N_Tx_TxOut, .ownerWrites),
+                 (N_BlockChanges_DeledTxs, .mainOnly), (N_BlockChanges_UndoData, .mainOnly), (N_BlockChanges_AddList, .mainOnly)]),
+  ("save", [(N_UnspentDB_HashMap, .mutex N_UnspentDB_MapMutex_idx 3 0), (N_UnspentDB_LastBlockHeight, .ownerWrites), (N_UnspentDB_LastBlockHash, .ownerWrites)]),
+  ("commitBlockTxs", [(N_UnspentDB_LastBlockHeight, .mutex N_UnspentDB_Mutex 0 0), (N_UnspentDB_LastBlockHash, .mutex N_UnspentDB_Mutex 0 0)]),
+  ("undoBlockTxs", [(N_UnspentDB_HashMap, .mutex N_UnspentDB_MapMutex_idx 0 0), (N_UnspentDB_DeletedRecords, .mutex N_UnspentDB_MapMutex_idx 0 0),
+                    (N_UnspentDB_LastBlockHeight, .mutex N_UnspentDB_Mutex 0 0), (N_UnspentDB_LastBlockHash, .mutex N_UnspentDB_Mutex 0 0)]),
+  ("commit", [(N_UnspentDB_HashMap, .mutex N_UnspentDB_MapMutex_idx 0 0)]),
+  ("del", [(N_UnspentDB_HashMap, .mutex N_UnspentDB_MapMutex_idx 0 0), (N_UnspentDB_DeletedRecords, .mutex N_UnspentDB_MapMutex_idx 0 0)]),
+  ("idle", [(N_UnspentDB_LastBlockHeight, .mutex N_UnspentDB_Mutex 0 0)]),
+  ("unspentGet", [(N_UnspentDB_HashMap, .mutex N_UnspentDB_MapMutex_idx 0 0)]),
+  ("txPresent", [(N_UnspentDB_HashMap, .mutex N_UnspentDB_MapMutex_idx 0 0)]),
+  ("relocate", [(N_UnspentDB_HashMap, .mutex N_UnspentDB_MapMutex_idx 0 0)]),
+  ("defragMap", [(N_UnspentDB_HashMap, .mutex N_UnspentDB_MapMutex_idx 1 0), (N_UnspentDB_DeletedRecords, .mutex N_UnspentDB_MapMutex_idx 0 0)]),
+  ("writeOne", [(N_oneBl_ipos, .mutex N_BlockDB_mutex 1 0), (N_oneBl_blen, .mutex N_BlockDB_mutex 0 0), (N_oneBl_fpos, .mutex N_BlockDB_mutex 0 0),
+                (N_oneBl_datfileidx, .mutex N_BlockDB_mutex 0 0), (N_oneBl_compressed, .mutex N_BlockDB_mutex 0 0), (N_oneBl_snappied, .mutex N_BlockDB_mutex 0 0),
+                (N_oneBl_trusted, .mutex N_BlockDB_mutex 1 0), (N_BlockDB_blockIndex, .mutex N_BlockDB_mutex 0 0), (N_BlockDB_datToWrite, .mutex N_BlockDB_mutex 0 0),
+                (N_BlockDB_maxidxfilepos, .mutex N_BlockDB_disk_access 0 0), (N_BlockDB_maxdatfilepos, .mutex N_BlockDB_disk_access 0 0),
+                (N_BlockDB_maxdatfileidx, .mutex N_BlockDB_disk_access 0 0), (N_BlockDB_blockdata, .mutex N_BlockDB_disk_access 0 0)]),
+  ("blockGetInternal", [(N_BlockDB_blockIndex, .mutex N_BlockDB_mutex 0 0), (N_BlockDB_cache, .mutex N_BlockDB_mutex 0 0), (N_oneBl_trusted, .mutex N_BlockDB_mutex 0 0),
+                (N_oneBl_ipos, .mutex N_BlockDB_mutex 1 0), (N_oneBl_blen, .mutex N_BlockDB_mutex 2 0), (N_oneBl_fpos, .mutex N_BlockDB_mutex 1 0),
+                (N_oneBl_datfileidx, .mutex N_BlockDB_mutex 2 0), (N_oneBl_compressed, .mutex N_BlockDB_mutex 1 0), (N_oneBl_snappied, .mutex N_BlockDB_mutex 1 0),
+                (N_oneBl_olen, .mutex N_BlockDB_mutex 1 1)]),
+  ("blockAdd", [(N_oneBl_ipos, .mutex N_BlockDB_mutex 0 0), (N_oneBl_trusted, .mutex N_BlockDB_mutex 0 0), (N_BlockDB_blockIndex, .mutex N_BlockDB_mutex 0 0),
+                (N_BlockDB_cache, .mutex N_BlockDB_mutex 0 0), (N_BlockDB_datToWrite, .mutex N_BlockDB_mutex 0 0)]),
+  ("blockInvalid", [(N_oneBl_ipos, .mutex N_BlockDB_mutex 0 0), (N_oneBl_trusted, .mutex N_BlockDB_mutex 0 0), (N_BlockDB_blockIndex, .mutex N_BlockDB_mutex 0 0),
+                (N_BlockDB_cache, .mutex N_BlockDB_mutex 0 0), (N_BlockDB_blockindx, .mutex N_BlockDB_disk_access 0 0)]),
+  ("blockTrusted", [(N_oneBl_ipos, .mutex N_BlockDB_mutex 0 0), (N_oneBl_trusted, .mutex N_BlockDB_mutex 0 0), (N_BlockDB_blockIndex, .mutex N_BlockDB_mutex 0 0),
+                (N_BlockDB_blockindx, .mutex N_BlockDB_disk_access 0 0)]),
+  ("buildTxListExt", [(N_L_uint64, .workers N_L_sync_WaitGroup 0), (N_L_P_btc_Tx, .frozen), (N_Block_Txs, .ownerWrites),
+                      (N_Block_BlockWeight, .mainOnly), (N_Block_TotalInputs, .mainOnly)]),
+  ("witnessSigHash", [(N_Tx_hashPrevouts, .mutex N_Tx_hashLock 0 0), (N_Tx_hashSequence, .mutex N_Tx_hashLock 0 0), (N_Tx_hashOutputs, .mutex N_Tx_hashLock 0 0)]),
+  ("taprootSigHash", [(N_Tx_tapSingleHashes, .mutex N_Tx_hashLock 0 0), (N_Tx_tapOutSingleHash, .mutex N_Tx_hashLock 0 0)]),
   ("serializeC", [(N_comp_val, .mutex N_comp_pool_mutex 0 0), (N_comp_scr, .mutex N_comp_pool_mutex 0 0)])
 ]
 
 def factsOf (fn : String) : List Ev := (GocoinV.Gen.ConcFacts.all.lookup fn).getD []
 
+/-- every local that some function literal of an extracted function captures and that is written after its declaration
+    (gen_c11 lists them per function) has a guard in the policy table: a NEW shared local cannot go unnoticed -/
+def capturedCovered : Bool :=
+  GocoinV.Gen.ConcFacts.captured.all (fun (fn, xs) => xs.all (fun x => (((policy.lookup fn).getD []).lookup x).isSome))
+
 /-- all functions of the policy table pass the discipline check on the CURRENT source's sequences -/
-def allDisciplined : Bool := policy.all (fun (fn, pol) => !(factsOf fn).isEmpty && disciplined pol (factsOf fn))
+def allDisciplined : Bool :=
+  policy.all (fun (fn, pol) => !(factsOf fn).isEmpty && disciplined pol (factsOf fn)) && capturedCovered
 
 open GocoinV.Gen.ConcFacts in
 /-- structural protocol facts the transition systems below were written for, evaluated on the generated
@@ -196,30 +216,30 @@ structure ProtoFacts where
 
 open GocoinV.Gen.ConcFacts in
 def protoFacts : ProtoFacts where
-  commitAbortFirst := precedesAll (.call N_abortWriting) (fun e => e == .call N_commit || e == .wr N_db_LastBlockHash || e == .wr N_db_LastBlockHeight || e == .wr N_db_HashMap) commitBlockTxs
-  undoAbortFirst := precedesAll (.call N_abortWriting) (fun e => e == .wr N_db_HashMap || e == .wr N_db_LastBlockHash || e == .wr N_db_LastBlockHeight || e == .call N_del) undoBlockTxs
-  commitLocked := callsHeld N_abortWriting N_db_Mutex commitBlockTxs && callsHeld N_commit N_db_Mutex commitBlockTxs
-  undoLocked := callsHeld N_abortWriting N_db_Mutex undoBlockTxs
-  purgeAbortFirst := precedesAll (.call N_abortWriting) (fun e => e == .wr N_db_HashMap || e == .wr N_db_LastBlockHash || e == .wr N_db_LastBlockHeight) purgeUnspendable
-                       && purgeUnspendable.contains (.wr N_db_HashMap)
-  purgeLocked := callsHeld N_abortWriting N_db_Mutex purgeUnspendable
-  abortPubLocked := skeleton abortWritingPub == [.lock N_db_Mutex, .call N_abortWriting, .unlock N_db_Mutex]
-  idleLocked := callsHeld N_Save N_db_Mutex idle && (skeleton idle).contains (.call N_Save)
-  abortShape := skeleton abortWriting == [.atomic N_db_WritingInProgress, .send N_db_abortwritingnow, .wgWait N_db_writingDone,
-                                          .selBegin, .selRecv N_db_abortwritingnow, .selDefault, .selEnd]
-  saveShape := skeleton savePub == [.atomic N_db_WritingInProgress, .atomic N_db_WritingInProgress, .wgAdd N_db_writingDone, .goCall N_save]
-  saveWaitsFile := precedesAll (.wgWait N_db_lastFileClosed) (fun e => e == .wgAdd N_db_lastFileClosed || e == .goBegin) save
+  commitAbortFirst := precedesAll (.call N_abortWriting) (fun e => e == .call N_commit || e == .wr N_UnspentDB_LastBlockHash || e == .wr N_UnspentDB_LastBlockHeight || e == .wr N_UnspentDB_HashMap) commitBlockTxs
+  undoAbortFirst := precedesAll (.call N_abortWriting) (fun e => e == .wr N_UnspentDB_HashMap || e == .wr N_UnspentDB_LastBlockHash || e == .wr N_UnspentDB_LastBlockHeight || e == .call N_del) undoBlockTxs
+  commitLocked := callsHeld N_abortWriting N_UnspentDB_Mutex commitBlockTxs && callsHeld N_commit N_UnspentDB_Mutex commitBlockTxs
+  undoLocked := callsHeld N_abortWriting N_UnspentDB_Mutex undoBlockTxs
+  purgeAbortFirst := precedesAll (.call N_abortWriting) (fun e => e == .wr N_UnspentDB_HashMap || e == .wr N_UnspentDB_LastBlockHash || e == .wr N_UnspentDB_LastBlockHeight) purgeUnspendable
+                       && purgeUnspendable.contains (.wr N_UnspentDB_HashMap)
+  purgeLocked := callsHeld N_abortWriting N_UnspentDB_Mutex purgeUnspendable
+  abortPubLocked := callsHeld N_abortWriting N_UnspentDB_Mutex abortWritingPub && (skeleton abortWritingPub).contains (.call N_abortWriting)
+  idleLocked := callsHeld N_Save N_UnspentDB_Mutex idle && (skeleton idle).contains (.call N_Save)
+  abortShape := skeleton abortWriting == [.atomic N_UnspentDB_WritingInProgress, .send N_UnspentDB_abortwritingnow, .wgWait N_UnspentDB_writingDone,
+                                          .selBegin, .selRecv N_UnspentDB_abortwritingnow, .selDefault, .selEnd]
+  saveShape := skeleton savePub == [.atomic N_UnspentDB_WritingInProgress, .atomic N_UnspentDB_WritingInProgress, .wgAdd N_UnspentDB_writingDone, .goCall N_save]
+  saveWaitsFile := precedesAll (.wgWait N_UnspentDB_lastFileClosed) (fun e => e == .wgAdd N_UnspentDB_lastFileClosed || e == .goBegin) save
   saveClrBeforeDone :=
-    let sk := save.filter (fun e => e == .atomic N_db_WritingInProgress || e == .wgDone N_db_writingDone || e == .rd N_db_HashMap)
-    sk.getLast? == some (.wgDone N_db_writingDone) && sk.dropLast.getLast? == some (.atomic N_db_WritingInProgress)
-  closeShape := (skeleton close).filter (fun e => e == .wgWait N_db_writingDone || e == .wgWait N_db_lastFileClosed)
-                  == [.wgWait N_db_writingDone, .wgWait N_db_lastFileClosed]
+    let sk := save.filter (fun e => e == .atomic N_UnspentDB_WritingInProgress || e == .wgDone N_UnspentDB_writingDone || e == .rd N_UnspentDB_HashMap)
+    sk.getLast? == some (.wgDone N_UnspentDB_writingDone) && sk.dropLast.getLast? == some (.atomic N_UnspentDB_WritingInProgress)
+  closeShape := (skeleton close).filter (fun e => e == .wgWait N_UnspentDB_writingDone || e == .wgWait N_UnspentDB_lastFileClosed)
+                  == [.wgWait N_UnspentDB_writingDone, .wgWait N_UnspentDB_lastFileClosed]
   cloned := blUnspIsClone
   deferWait := precedesAll .deferBegin (fun e => e == .goBegin) commitTxs
-                && ((commitTxs.dropWhile (· != .deferBegin)).takeWhile (· != .deferEnd)).contains (.wgWait N_wg)
+                && ((commitTxs.dropWhile (· != .deferBegin)).takeWhile (· != .deferEnd)).contains (.wgWait N_L_sync_WaitGroup)
   publishLast :=
-    let ws := writeOne.filter (fun e => match e with | .wr x => x == N_rec_ipos || x == N_rec_blen || x == N_rec_fpos || x == N_rec_datfileidx || x == N_rec_compressed || x == N_rec_snappied | _ => false)
-    ws.getLast? == some (.wr N_rec_ipos) && ws.length == 6
+    let ws := writeOne.filter (fun e => match e with | .wr x => x == N_oneBl_ipos || x == N_oneBl_blen || x == N_oneBl_fpos || x == N_oneBl_datfileidx || x == N_oneBl_compressed || x == N_oneBl_snappied | _ => false)
+    ws.getLast? == some (.wr N_oneBl_ipos) && ws.length == 6
   dataChanBuffered := decide (0 < dataChanCap)
   serializeLocked :=
     let isPool : Ev → Bool := fun e => e == .rd N_comp_val || e == .wr N_comp_val || e == .rd N_comp_scr || e == .wr N_comp_scr
